@@ -114,11 +114,16 @@ def Obs.token : Obs → String
 def observe (c : Conf) (r : Req) : Obs :=
   if allowed c r then (if r.ips.isEmpty then .dnsfail else .fwd) else .deny
 
+/-- `while ((l = strlen(foundHost)) > 0 && foundHost[--l] == '.') foundHost[l] = '\0';` (AnyP::Uri::parse) -/
+def stripTrailingDots (h : Bytes) : Bytes := (h.reverse.dropWhile (· == 46)).reverse
+
 /-- the request as the rig sends it (`METHOD http://host[:port]/... HTTP/1.1` from TCP address `src`) → what the
-checklist reads: AnyP::Uri::parse lower-cases the host and supplies the scheme's default port (80), a host that is a
-dotted quad is numeric and is its own address -/
+checklist reads: AnyP::Uri::parse lower-cases the host, removes trailing dots and supplies the scheme's default port
+(80); a host that is a dotted quad is numeric and is its own address.  An `X-Forwarded-For` header does not change the
+address `src` ACLs look at: `follow_x_forwarded_for` is `deny all` by default, so clientFollowXForwardedForCheck leaves
+`indirect_client_addr` = the TCP client address. -/
 def mkReq (src : Nat) (method host : Bytes) (port : Option Nat) (ips : List Nat) (rdns : Option Bytes) : Req :=
-  let h := Domain.fold host
+  let h := stripTrailingDots (Domain.fold host)
   { src := src, method := method, host := h, port := port.getD 80,
     numeric := (match quad? h with | some (.val _) => true | _ => false),
     ips := ips, rdns := rdns }
